@@ -157,6 +157,35 @@ impl Mat {
         }
         (rank, kernel)
     }
+    /// Solve M x = y for a square matrix; None if y is not in the image. (Gaussian elimination on
+    /// the column combination tracker.)
+    pub fn solve(&self, y: &BitVec) -> Option<BitVec> {
+        assert_eq!(y.n, self.rows);
+        // reduced columns with their combination of original columns, pivot on lowest set bit
+        let mut basis: Vec<(usize, BitVec, BitVec)> = Vec::new(); // (pivot bit, vector, combination)
+        for j in 0..self.cols {
+            let mut v = self.col[j].clone();
+            let mut comb = BitVec::unit(self.cols, j);
+            loop {
+                let Some(pb) = lowest_bit(&v) else { break };
+                if let Some((_, bv, bc)) = basis.iter().find(|(p, _, _)| *p == pb) {
+                    v.xor_assign(bv);
+                    comb.xor_assign(bc);
+                } else {
+                    basis.push((pb, v.clone(), comb.clone()));
+                    break;
+                }
+            }
+        }
+        let mut r = y.clone();
+        let mut x = BitVec::zero(self.cols);
+        loop {
+            let Some(pb) = lowest_bit(&r) else { return Some(x) };
+            let (_, bv, bc) = basis.iter().find(|(p, _, _)| *p == pb)?;
+            r.xor_assign(bv);
+            x.xor_assign(bc);
+        }
+    }
     pub fn xor(&self, o: &Mat) -> Mat {
         assert!(self.rows == o.rows && self.cols == o.cols);
         let mut m = self.clone();
@@ -177,6 +206,15 @@ impl Mat {
         }
         h
     }
+}
+
+fn lowest_bit(v: &BitVec) -> Option<usize> {
+    for (wi, &w) in v.w.iter().enumerate() {
+        if w != 0 {
+            return Some(wi * 64 + w.trailing_zeros() as usize);
+        }
+    }
+    None
 }
 
 // ------------------------------------------------------------------------------------------------
